@@ -342,7 +342,7 @@ def check_chunk_agreement(fg, res):
                         continue
                     m, si = size_sources(fg, k, c)
                     if m:
-                        writer = (k, b, bi, s["r"]["op"], m)
+                        writer = (k, b, bi, s["r"]["op"], m, c)
     reader = None
     for k, b in fg.bodies.items():
         if b.owner != gab_o:
@@ -363,8 +363,14 @@ def check_chunk_agreement(fg, res):
     if reader is None:
         res.bad("R19.chunk", "gen_auth_bits|chunks", "cannot locate and_shares.chunks(<batch size>) in gen_auth_bits")
         return
-    wk, wb, wbi, wop, wm = writer
+    wk, wb, wbi, wop, wm, wbound = writer
     rk, rb, rbi, rm = reader
+    from an import plain_value_origin
+    wcalls, wcomputed = plain_value_origin(fg, wk, wbound, wb.owner)
+    if wcomputed or len([c for c in wcalls if c.startswith("polytune::mpc::protocol::Context")]) != 1 or len(wcalls) != 1:
+        res.bad("R19.chunk", "init_and_shares|flush", "the writer's flush bound is computed from the batch size (%s) instead of being the batch size itself: the file variant hands the written chunks back while the memory variant re-chunks by the reader's size, so the two variants produce different batches"
+                % (sorted(x.rsplit("::", 1)[-1] for x in wcalls) or "arithmetic"), where(wb, wbi))
+        return
     if wop != "Ge":
         res.bad("R19.chunk", "init_and_shares|flush", "flush condition is `%s`, not `len >= bound`: written chunks would not have exactly the batch size" % wop, where(wb, wbi))
     elif wm != rm or len(wm) != 1:
